@@ -54,7 +54,12 @@ MANIFEST_ENTRY = {
             "(C14_reindex_fixpoint), hence the same token postings and positions for any analyzer (C14_postings) and "
             "the same answer for every well-typed filter tree, per document and per hit list (C14_queries, through "
             "C08_filter_exact); the model's observation meets the executable specification (C14_model_meets_spec); the "
-            "stored form before the repair is refuted by two witnesses (C14_unfixed_refuted). 'Which documents any "
+            "stored form before the repair is refuted by two witnesses (C14_unfixed_refuted). Extension of C04's 'stored "
+            "fields equal to the stored projection': collect_document run as the code does (one pass over the "
+            "document's fields, push_stored, nested map, finalize_stored) yields, for every valid document, exactly the "
+            "stored projection sp as a map, and sp is idempotent (C04_stored_projection, "
+            "C04_stored_projection_idempotent); the tie compares the exact stored "
+            "JSON of every live document with sp. 'Which documents any "
             "query matches' is carried by C14_reindex_fixpoint/C14_postings (identical index input per field) plus "
             "the tie's before/after comparison of real term/phrase/prefix/bool/vector queries; 'byte-identical "
             "directory on refusal' and 'old files removed' only by the tie.",
